@@ -745,6 +745,10 @@ class PipeFunc(Generic[T]):
         func = self.func
         if isinstance(func, _NestedFuncWrapper):
             func = func.func
+        if isinstance(self.func, _NestedFuncWrapper):
+            # `func` is `_PipelineAsFunc.call_full_output`, whose `-> dict[str, Any]`
+            # says nothing about the individual outputs of the nested pipeline.
+            return {name: NoAnnotation for name in at_least_tuple(self.output_name)}
         if inspect.isclass(func) and isinstance(self.output_name, str):
             return {self.output_name: func}
         if self._output_picker is None:
